@@ -4880,6 +4880,13 @@ class PyCdlib:
         if file_mode is None:
             file_mode = 0o040555
 
+        # The namespaces are dealt with one after the other below; what the
+        # later ones would refuse is refused now, while nothing has changed.
+        if joliet_path is not None:
+            self._check_new_joliet_path(joliet_path)
+        if udf_path is not None:
+            self._check_new_udf_path(udf_path)
+
         num_bytes_to_add = 0
         if iso_path is not None:
             iso_path_bytes = utils.normpath(iso_path)
@@ -4893,6 +4900,14 @@ class PyCdlib:
             (name, parent) = self._iso_name_and_parent_from_path(iso_path_bytes)
 
             _check_iso9660_directory(name, self.interchange_level)
+
+            # A name that exists is refused now, while nothing has changed.
+            try:
+                self._find_iso_record(iso_path_bytes)
+            except pycdlibexception.PyCdlibInvalidInput:
+                pass
+            else:
+                raise pycdlibexception.PyCdlibInvalidInput('Failed adding duplicate name to parent')
 
             relocated = False
             fake_dir_rec = None
